@@ -4,6 +4,7 @@ import Driver.Sexp
 import Driver.C08
 import Dawgs.Spec.C07
 import Dawgs.Model.C07Tree
+import Dawgs.Model.C07Float
 /-! C07 model driver. Input line: `tree <sexp>` (ANTLR tree with typed leaves). Answer:
 `unsup=[…] | build=<ok|unmodelled:<rule>|rejected:<why>> model=<sexp|-> emit=<json of the despaced token text|-> ignored=[Visitor@rule,…] shapes=[…]`
 * build/model: Lean `build` on the real tree, rendered like harness/sexp.go renders the Go model;
@@ -86,6 +87,13 @@ def stripTop (t : Tree) : Tree :=
   | .node r ks => .node r (ks.filterMap (strip true false))
   | t => t
 
+/-- the text of every oC_DoubleLiteral node, in pre-order -/
+partial def doubleTexts : Tree → List String
+  | .node r kids =>
+    if ruleName r == "oC_DoubleLiteral" then [String.join (kids.map (fun k => match k with | .leaf s => leafText s | .err s => leafText s | _ => ""))]
+    else kids.flatMap doubleTexts
+  | _ => []
+
 def despace (s : String) : String := String.ofList (s.toList.filter (fun c => c != ' '))
 
 def step (_ : Unit) (ts : List String) : Unit × String :=
@@ -124,7 +132,7 @@ def step (_ : Unit) (ts : List String) : Unit × String :=
           | .ok q, .ok q' => if toSexp q == toSexp q' then "same" else "diff"
           | .ok _, .error _ => "diff"
           | .error _, _ => "-"
-        ((), s!"unsup=[{Driver.C08.sortedNames unsup}] | build={b} ignored=[{",".intercalate ign}] shapes=[{",".intercalate sh}] canon={canon} strip={same} emit={e} model={m}")
+        ((), s!"unsup=[{Driver.C08.sortedNames unsup}] | build={b} ignored=[{",".intercalate ign}] shapes=[{",".intercalate sh}] canon={canon} strip={same} fbits=[{",".intercalate ((doubleTexts t).map (fun s => match floatBits s with | some b => toString b | none => "?"))}] emit={e} model={m}")
       | none => ((), "bad-op")
     | some [.atom "blank"] => ((), "unsup=[] | build=rejected:blank ignored=[] shapes=[] emit=- model=-")
     | _ => ((), "bad-op")
